@@ -199,6 +199,15 @@ func tIf(c, a, b *T) *T {
 	if eq(a, b) {
 		return a
 	}
+	// if(c, true, false) is c, if(c, false, true) its negation
+	if a.Op == "k" && b.Op == "k" {
+		if a.K == "true" && b.K == "false" {
+			return c
+		}
+		if a.K == "false" && b.K == "true" {
+			return tNot(c)
+		}
+	}
 	// seq factoring
 	if a.Op == "seq" || b.Op == "seq" || isEmission(a) || isEmission(b) {
 		pa, pb := seqParts(a), seqParts(b)
